@@ -43,7 +43,7 @@ def random_string(rnd, maxlen=12):
 
 INT_VALUES = [0, 1, -1, 7, -42, 10, 2**31, -2**31 - 1, 2**63, 10**30, -10**18]
 FLOAT_VALUES = [0.0, -0.0, 1.5, -2.25, 1e20, 1e-7, -3.5e+30, 123456.789, 5e-324, 1.7976931348623157e308]
-DECIMAL_VALUES = [decimal.Decimal(x) for x in ["0", "1.10", "-2.50", "1E+3", "1E-7", "-1.5E+20", "123456789.123456789", "0E-10"]]
+DECIMAL_VALUES = [decimal.Decimal(x) for x in ["0", "1.10", "-2.50", "1E+3", "1E-7", "-1.5E+20", "123456789.123456789", "0E-10", "-0", "-0.0", "-0E+3"]]
 TZ = dt.timezone(dt.timedelta(hours=5, minutes=30))
 DATE_VALUES = [dt.date(2020, 1, 2), dt.date(1, 1, 1), dt.date(9999, 12, 31)]
 TIME_VALUES = [dt.time(1, 2, 3), dt.time(23, 59, 59, 999999), dt.time(4, 5, 6, tzinfo=TZ), dt.time(0, 0)]
